@@ -124,9 +124,11 @@ def run(ctx):
         if impl_eq is None and impl_ac is None:
             ctx.count('impl-model.implementation-raised')      # reported as a failure by one_pair (finding D41 when it is the RecursionError of unify)
             continue
-        if faithful != 'T':
-            ctx.disagree('Eq.faithful: the pair is outside the hypothesis of C13b.compareImpl_eq_compareModel (a unification failed on '
-                         'intersecting patterns, or the model ran out of fuel)', case, 'T', faithful)
+        # faithful != 'T': the pair is outside the hypothesis of C13b.compareImpl_eq_compareModel (a unification failed on intersecting
+        # patterns — unify is incomplete, C06b — or the model ran out of fuel).  That is a limit of the THEOREM's reach, counted above
+        # ('impl-model.outside-hypothesis'), not a disagreement: the library's answer on such a pair is still compared with the model of
+        # the algorithm (below) and with the dense specification (one_pair).  (False alarm of sweep 9, thorough tier, seed 3: a tensor
+        # against a re-patterned view of itself.)
         if impl_eq is not None and ie != ('T' if impl_eq else 'F'):
             ctx.disagree('Eq.compareImpl (equal with unify/project in place) vs PatternedTensor.equal', case, impl_eq, ie)
         if impl_ac is not None and ia != ('T' if impl_ac else 'F'):
